@@ -411,8 +411,16 @@ impl<'a> From<Piece<'a>> for Chunk {
                         None => "%+".to_owned(),
                     };
 
-                    if chrono::format::StrftimeItems::new(&format)
-                        .any(|item| item == chrono::format::Item::Error)
+                    // some directives (`%#z`) parse but cannot be rendered: render once
+                    // (into a `String`, where a failing `Display` is an `Err`, not a panic)
+                    let renders = std::fmt::Write::write_fmt(
+                        &mut String::new(),
+                        format_args!("{}", Utc::now().format(&format)),
+                    )
+                    .is_ok();
+                    if !renders
+                        || chrono::format::StrftimeItems::new(&format)
+                            .any(|item| item == chrono::format::Item::Error)
                     {
                         return Chunk::Error(format!("invalid date format `{}`", format));
                     }
